@@ -4,7 +4,7 @@ from props.C06 import shape, sname, maxlen, shapes
 ASSUMPTIONS = ["prefix family: valid image of a concrete shape with symbolic payload, stream length symbolic in 0..total",
                "field family: one structural 32-bit field replaced by each boundary value of a list (0, valid+1, 9, 31, 32, 2^31-1, 2^31, 2^32-1, ...), allocation requests above VF_MAX_ALLOC fail with std::bad_alloc (an allocator may do that)",
                "reader kernel: the stream is a reader of arbitrary content (every byte of the file symbolic) with the allocation cap low enough that every table holds at most a few entries",
-               "saved games are NOT covered yet"]
+               "saved games are NOT covered"]
 OUTSIDE = ["the saved-game reader (ReadSavedGame): the harness exists (h_savedgame) but its query runs out of solver memory; saved-game/map-file agreement is therefore not claimed", "allocations above VF_MAX_ALLOC that succeed (maps with more than a few dozen tiles / table entries)", "two or more fields corrupted at once (thorough tier adds pairs for the header)",
            "byte strings that are not within one structural field of a shape in the family"]
 LEVEL_TEXT = ("Bounded model checking of the real readers over MemoryReader: memory safety (CBMC pointer checks on every access of the translated code), front-end UB traps "
@@ -41,5 +41,7 @@ def queries(tier):
                     desc="ReadMap over a kernel reader: all five header fields free 32-bit values; whenever the tile array is read, log-width < 32 and its byte count equals width x height x 4 in 64-bit arithmetic (allocation cap 64 bytes)"))
     qs.append(Query("group_kernel", "C07_mapsafe.cpp", "h_group_kernel", {}, unwind=70, max_alloc=64, timeout=600, cbmc_opts=["--z3"],
                     desc="ReadTileGroup over a kernel reader: width and height free 32-bit values; whenever the index array is read its byte count equals width x height x 4 in 64-bit arithmetic"))
+    # h_units_kernel (ReadSavedGameUnits over a room-checking reader) is written but not run: the 254 KB SavedGameUnits object makes the SAT
+    # back end run out of 15 GB with every field-sensitivity setting and with z3 (measured 2026-10-03).
     # TODO(savedgame): h_savedgame (sparse reader, embedded map at 0x1E025) currently exhausts the SAT solver's memory (15 GB); not part of the claim yet.
     return qs
